@@ -198,26 +198,25 @@ theorem alpha_not_arith (c : Char) (h : isAlphaA c = true) : arithBody c = false
   simp [arithBody, arithLast, hd, e1, e2, e3, e4, e5, e6, e7, e8, e9]
 
 theorem any_alpha_not_arith (l : Str) (h : l.any isAlphaA = true) : isArithmetic l = false := by
-  have key : ∀ l : Str, l.any isAlphaA = true → reArithShape l = false := by
-    intro l
-    induction l with
-    | nil => simp
-    | cons c cs ih =>
-      intro h
-      cases cs with
-      | nil => simp [reArithShape]
-      | cons d ds =>
-        simp only [List.any_cons, Bool.or_eq_true] at h
-        unfold reArithShape
-        rcases h with h | h
-        · simp [(alpha_not_arith c h).1]
-        · cases ds with
-          | nil =>
-            have hdl : isAlphaA d = true := by simpa using h
-            simp [(alpha_not_arith d hdl).2]
-          | cons e es =>
-            have := ih (by simpa using h)
-            simp [this]
-  simp [isArithmetic, key l h]
+  have key : reArithShape l = false := by
+    unfold reArithShape
+    cases hl : l.getLast? with
+    | none => rfl
+    | some last =>
+      have hne : l ≠ [] := by intro e; subst e; simp at hl
+      have hsplit : l = l.dropLast ++ [last] := by
+        have := List.dropLast_concat_getLast hne
+        rw [List.getLast?_eq_some_getLast hne] at hl
+        simp at hl; rw [hl] at this; exact this.symm
+      rw [hsplit, List.any_append] at h
+      simp only [List.any_cons, List.any_nil, Bool.or_false, Bool.or_eq_true] at h
+      rcases h with h | h
+      · have : l.dropLast.all arithBody = false := by
+          rw [List.all_eq_false]
+          obtain ⟨x, hx1, hx2⟩ := List.any_eq_true.mp h
+          exact ⟨x, hx1, by simp [(alpha_not_arith x hx2).1]⟩
+        simp [this]
+      · simp [(alpha_not_arith last h).2]
+  simp [isArithmetic, key]
 
 end Cicada.TokLemmas
